@@ -1091,8 +1091,6 @@ impl WalSegment {
                 .get_mut()
                 .sync_data()
                 .wrap_err("failed to sync WAL frame to disk")?;
-            #[cfg(kahflane_turdb_verif)]
-            crate::verif::file_event("fsync", &self.path);
         }
 
         self.offset += (WAL_FRAME_HEADER_SIZE + PAGE_SIZE) as u64;
@@ -1108,19 +1106,6 @@ impl WalSegment {
         self.writer
             .flush()
             .wrap_err("failed to flush WAL buffer")?;
-        #[cfg(kahflane_turdb_verif)]
-        {
-            let r = self
-                .writer
-                .get_mut()
-                .sync_data()
-                .wrap_err("failed to sync WAL segment to disk");
-            if r.is_ok() {
-                crate::verif::file_event("fsync", &self.path);
-            }
-            return r;
-        }
-        #[cfg(not(kahflane_turdb_verif))]
         self.writer
             .get_mut()
             .sync_data()
